@@ -1910,10 +1910,12 @@ class OALParser(object):
 
     @track_production
     def p_instance_name(self, p):
-        '''instance_name : variable_name
-                         | SELF
-        '''
+        '''instance_name : variable_name'''
         p[0] = p[1]
+        
+    def p_instance_name_self(self, p):
+        '''instance_name : SELF'''
+        p[0] = p[1].lower()
         
     @track_production
     def p_identifier(self, p):
